@@ -1,4 +1,4 @@
-(* driver for the C06 model: one case per line
+(* driver for the C06 model (ops prox, proxd, bearing, brute): one case per line
      prox <metric 0|2> <nties> ties.. <R> <M> <nx> xc.. <ny> yc.. <nv> values.. <rows> <cols> cells..
    R, M: "inf" or an integer key; coordinates: integer or "nan"; values / cells: xv tokens.
    output: for every cell, row-major, three integers  key row col
@@ -10,8 +10,48 @@ open Zio
 open Xio
 let next_ext r = match next r with "inf" -> EInf | s -> EFin (z_of_string s)
 let next_coord r = match next r with "nan" -> None | s -> Some (z_of_string s)
+let float_of_sf (x : spec_float) : float =
+  match x with
+  | S754_nan -> Stdlib.nan
+  | S754_zero s -> if s then (-0.) else 0.
+  | S754_infinity s -> if s then Stdlib.neg_infinity else Stdlib.infinity
+  | S754_finite (s, m, e) ->
+    let f = ldexp (float_of_int (int_of_pos m)) (int_of_z e) in if s then (-. f) else f
+let hex (f : float) : string = if f <> f then "nan" else Printf.sprintf "%h" f
+let lift1 f x = Float64.of_float (f (Float64.to_float x))
+let gc_metric = gc_key (lift1 Stdlib.sin) (lift1 Stdlib.cos) (lift1 Stdlib.asin)
+let libm_atan2 y x = Float64.of_float (Stdlib.atan2 (Float64.to_float y) (Float64.to_float x))
 let () = main_loop (fun op r ->
   match op with
+  | "proxd" ->
+    (* as "prox", plus the direction output: per cell  key row col direction(hex float) *)
+    let metric = int_of_z (next_z r) in
+    let ties = next_list r next_z in
+    let rr = next_ext r in
+    let mm = next_ext r in
+    let xc = next_list r next_coord in
+    let yc = next_list r next_coord in
+    let vs = next_list r next_xv in
+    let g = next_grid r next_xv in
+    let key = if metric = 1 then gc_metric
+              else metric_of_key (if metric = 2 then key_manhattan else key_euclid) in
+    let out = run_model_full libm_atan2 key ties rr mm xc yc vs g in
+    String.concat " " (List.map (fun row ->
+      String.concat " " (List.map (fun ((k, (a, b)), d) ->
+        string_of_z k ^ " " ^ string_of_z a ^ " " ^ string_of_z b ^ " " ^ hex (float_of_sf d)) row)) out)
+  | "gckey" ->
+    (* gckey <n> then n quadruples x1 x2 y1 y2 (integers, degrees): the GREAT_CIRCLE key of each *)
+    let n = next_int r in
+    let qs = next_n r n (fun r ->
+      let a = next_z r in let b = next_z r in let c = next_z r in let d = next_z r in (a, b, c, d)) in
+    String.concat " " (List.map (fun (a, b, c, d) -> string_of_z (gc_metric a b c d)) qs)
+  | "bearing" ->
+    (* bearing <n> then n quadruples x1 x2 y1 y2 (hex floats): _calc_direction of each *)
+    let n = next_int r in
+    let qs = next_n r n (fun r ->
+      let f () = Float64.of_float (float_of_string (next r)) in
+      let a = f () in let b = f () in let c = f () in let d = f () in (a, b, c, d)) in
+    String.concat " " (List.map (fun (a, b, c, d) -> hex (float_of_sf (calc_direction libm_atan2 a b c d))) qs)
   | "prox" ->
     let metric = next_z r in
     let ties = next_list r next_z in
@@ -31,7 +71,7 @@ let () = main_loop (fun op r ->
     let yc = next_list r next_coord in
     let vs = next_list r next_xv in
     let g = next_grid r next_xv in
-    let key = if metric = 2 then key_manhattan else key_euclid in
+    let key = metric_of_key (if metric = 2 then key_manhattan else key_euclid) in
     let h = List.length g in
     let w = match g with [] -> 0 | row :: _ -> List.length row in
     let cells = List.concat (List.init h (fun i -> List.init w (fun j -> (i, j)))) in
